@@ -18,6 +18,13 @@ package main
 //	                    literal without the X-Pm-Gluon-Id line), UIDNEXT                    -> property verdict
 //	c03-model           the MODEL (Model/Actions.lean) on the same commands                 -> tie of the model
 //
+// EXPUNGE / UID EXPUNGE / CLOSE: the session's view only says WHICH messages the command names (all the session
+// sees, or those of them the UID set names); which of them are \Deleted is decided by the REFERENCE (the
+// authoritative per-mailbox \Deleted), never by what the session believes — a session that has lost or gained a
+// \Deleted through a flag change made in ANOTHER mailbox removes the wrong messages and the next checkpoint
+// differs.  What the view shows as \Deleted is handed on as well: the MODEL of the code (Mailbox.Expunge works
+// from the snapshot) runs on it, and the judge names the first EXPUNGE at which the two differ.
+//
 // Connector: the Dummy echoes every client action as an update at its next Flush, and those echoes carry only
 // \Seen / \Flagged (a fixture artefact: they would wipe \Answered, \Draft and keywords).  Mode `echo=drop`
 // (default) discards the echoes before every barrier; mode `echo=flush` delivers them and restricts the flags
@@ -89,6 +96,9 @@ type c03Run struct {
 	markerN    int
 	stats      map[string]int
 	bulk       bool
+	profile    string         // generation profile: "" (general) or "cross"
+	queue      []string       // cross profile: the steps of the prefix still to come
+	homes      map[int]string // cross profile: the mailbox each session stays in
 }
 
 func c03NewRun(echo string, fault *Fault) (*c03Run, error) {
@@ -590,34 +600,32 @@ func (o *c03Run) execSession(s *c03Sess, op string, a []string, step string) err
 			o.stats["same-mailbox"]++
 		}
 	case "EXPUNGE", "CLOSE", "UIDEXPUNGE":
-		var sel []int
+		// named: the messages of the view the command speaks about; sel: those of them the view shows as \Deleted
+		named, what := view, "all"
 		cmd := op
 		if op == "UIDEXPUNGE" {
 			if len(a) != 2 {
 				return bad
 			}
-			named, ok := c03Resolve(view, "uid", a[1])
-			if !ok {
+			var ok bool
+			if named, ok = c03Resolve(view, "uid", a[1]); !ok {
 				return bad
 			}
-			for _, u := range named {
-				if del[u] {
-					sel = append(sel, u)
-				}
-			}
+			sort.Ints(named)
+			what = "set"
 			cmd = "UID EXPUNGE " + a[1]
-		} else {
-			for _, u := range view {
-				if del[u] {
-					sel = append(sel, u)
-				}
+		}
+		var sel []int
+		for _, u := range named {
+			if del[u] {
+				sel = append(sel, u)
 			}
 		}
 		rep := o.cmd(s, cmd)
 		if rep.Err != nil {
 			return rep.Err
 		}
-		o.record(fmt.Sprintf("X:%s:%s", s.selected, c03Ints(sel)), c03Status(rep))
+		o.record(fmt.Sprintf("X:%s:%s:%s:%s:%s", s.selected, a[0], what, c03Ints(named), c03Ints(sel)), c03Status(rep))
 		o.stats[fmt.Sprintf("size.%s", c03SizeClass(len(sel)))]++
 		if op == "CLOSE" && rep.Status == "OK" {
 			s.selected = ""
@@ -735,6 +743,9 @@ func (o *c03Run) peek(s *c03Sess, mode string) []int {
 }
 
 func (o *c03Run) genStep(r *Rng, nsess int) string {
+	if o.profile == "cross" {
+		return o.genStepCross(r, nsess)
+	}
 	for i := 0; i < nsess; i++ {
 		if o.sess[i] == nil {
 			return fmt.Sprintf("S%d LOGIN", i)
@@ -809,6 +820,117 @@ func (o *c03Run) genStep(r *Rng, nsess int) string {
 	}
 }
 
+// Profile `cross`: \Deleted is kept per mailbox while every other flag is kept per message, so a flag change made
+// in one mailbox reaches the sessions that have ANOTHER mailbox of the same message selected, and must leave their
+// \Deleted alone.  The prefix puts the same messages into two or three mailboxes (COPY), every session selects its own
+// mailbox and STAYS there (no SELECT in between; after a CLOSE the same mailbox again); then mostly STOREs naming
+// \Deleted (alone and with other flags, all six modes) from every session, interleaved with EXPUNGE / UID EXPUNGE /
+// CLOSE of the sessions that were selected all along, a few COPY / MOVE / APPEND to keep messages shared.
+func (o *c03Run) crossPrefix(r *Rng, nsess int) []string {
+	var q []string
+	for i := 0; i < nsess; i++ {
+		q = append(q, fmt.Sprintf("S%d LOGIN", i))
+	}
+	mbs := append([]string{}, c03Mailboxes...)
+	for i := len(mbs) - 1; i > 0; i-- {
+		j := r.Intn(i + 1)
+		mbs[i], mbs[j] = mbs[j], mbs[i]
+	}
+	n := r.Range(2, 5)
+	for k := 0; k < n; k++ {
+		q = append(q, fmt.Sprintf("S0 APPEND %s %s %s", mbs[0], o.genFlags(r, 2), o.newMarker()))
+	}
+	q = append(q, "S0 SELECT "+mbs[0])
+	q = append(q, fmt.Sprintf("S0 COPY sync seq 1:* %s", mbs[1]))
+	if r.Bool() {
+		q = append(q, fmt.Sprintf("S0 COPY sync seq %s %s", Pick(r, []string{"1:*", "1", "*", "2:*"}), mbs[2]))
+	}
+	for i := 0; i < nsess; i++ {
+		home := mbs[i%2] // sessions 0 and 1 always look at two different mailboxes of the same messages
+		if i == 2 {
+			home = Pick(r, mbs)
+		}
+		if i > 0 || home != mbs[0] {
+			q = append(q, fmt.Sprintf("S%d SELECT %s", i, home))
+		}
+	}
+	return q
+}
+
+func (o *c03Run) genStepCross(r *Rng, nsess int) string {
+	if len(o.steps) == 0 {
+		o.queue = o.crossPrefix(r, nsess)
+	}
+	if len(o.queue) > 0 {
+		st := o.queue[0]
+		o.queue = o.queue[1:]
+		if f := strings.Fields(st); len(f) == 3 && f[1] == "SELECT" {
+			// remembered before the step runs: exec creates the session at its LOGIN step
+			o.homeOf(atoi(f[0][1:]), f[2])
+		}
+		return st
+	}
+	i := r.Intn(nsess)
+	s := o.sess[i]
+	if s.selected == "" {
+		return fmt.Sprintf("S%d SELECT %s", i, o.homes[i]) // after CLOSE: the same mailbox again
+	}
+	mode := "sync"
+	stale := func() {
+		if o.echo != "flush" && r.Chance(1, 6) {
+			mode = "stale"
+		}
+	}
+	others := func() []string {
+		var l []string
+		for _, m := range c03Mailboxes {
+			if m != s.selected {
+				l = append(l, m)
+			}
+		}
+		return l
+	}
+	c := r.Intn(100)
+	if len(o.peek(s, "sync")) == 0 && c < 80 {
+		c = 95 // nothing here any more: bring a message in
+	}
+	switch {
+	case c < 46:
+		stale()
+		kind, set := c03GenSet(r, o.peek(s, mode))
+		if r.Chance(1, 3) {
+			kind, set = "seq", "1:*"
+		}
+		op := Pick(r, []string{"+FLAGS", "-FLAGS", "FLAGS", "+FLAGS.SILENT", "-FLAGS.SILENT", "FLAGS.SILENT"})
+		return fmt.Sprintf("S%d STORE %s %s %s %s %s", i, mode, kind, set, op, o.genFlags(r, 6))
+	case c < 60:
+		stale()
+		return fmt.Sprintf("S%d EXPUNGE %s", i, mode)
+	case c < 68:
+		_, set := c03GenSet(r, o.peek(s, "sync"))
+		return fmt.Sprintf("S%d UIDEXPUNGE sync %s", i, set)
+	case c < 73:
+		return fmt.Sprintf("S%d CLOSE sync", i)
+	case c < 82:
+		kind, set := c03GenSet(r, o.peek(s, mode))
+		return fmt.Sprintf("S%d COPY %s %s %s %s", i, mode, kind, set, Pick(r, others()))
+	case c < 86:
+		kind, set := c03GenSet(r, o.peek(s, mode))
+		return fmt.Sprintf("S%d MOVE %s %s %s %s", i, mode, kind, set, Pick(r, c03Mailboxes))
+	case c < 92:
+		return "CHECK"
+	default:
+		return fmt.Sprintf("S%d APPEND %s %s %s", i, Pick(r, c03Mailboxes), o.genFlags(r, 2), o.newMarker())
+	}
+}
+
+func (o *c03Run) homeOf(i int, mb string) {
+	if o.homes == nil {
+		o.homes = map[int]string{}
+	}
+	o.homes[i] = mb
+}
+
 // boundary sequence: n messages through the connector's batch path, then every bulk statement of the index on
 // all of them (message lists on both sides of db.ChunkLimit and db.ChunkLimit/2)
 func c03BoundarySteps(n int) []string {
@@ -854,6 +976,11 @@ func c03Header(echo, label string) string {
 
 // run the given steps (gen == nil) or generate nsteps steps online
 func c03RunSequence(echo string, fixed []string, r *Rng, nsess, nsteps int) c03Outcome {
+	return c03RunSequenceP(echo, "", fixed, r, nsess, nsteps)
+}
+
+// … with a generation profile ("" = general, "cross" = shared messages, sessions that stay in different mailboxes)
+func c03RunSequenceP(echo, profile string, fixed []string, r *Rng, nsess, nsteps int) c03Outcome {
 	out := c03Outcome{}
 	var fault *Fault
 	for _, st := range fixed {
@@ -899,6 +1026,7 @@ func c03RunSequence(echo string, fixed []string, r *Rng, nsess, nsteps int) c03O
 		return out
 	}
 	defer o.close()
+	o.profile = profile
 	fail := func(err error) c03Outcome {
 		out.steps = o.steps
 		out.harness = err.Error()
@@ -1068,6 +1196,7 @@ func runC03ContentOracle(args []string) int {
 	n := fs.Int("n", 12, "random sequences")
 	nsteps := fs.Int("steps", 28, "steps per random sequence")
 	bulk := fs.String("bulk", "seed", "boundary sizes: `seed` = one chosen by the seed, `all`, `none`, or a list a,b,…")
+	ncross := fs.Int("cross", 8, "random sequences of the profile `cross` (shared messages, sessions staying in different mailboxes)")
 	_ = fs.Parse(args)
 	if os.Getenv("VERIF_DRIVER") == "" {
 		if exe, err := os.Executable(); err == nil {
@@ -1196,6 +1325,19 @@ func runC03ContentOracle(args []string) int {
 			res.Stats["random.echo-"+echo]++
 			res.Stats[fmt.Sprintf("random.sessions-%d", nsess)]++
 			handle(fmt.Sprintf("random-%d", k), echo, "", c03RunSequence(echo, nil, rr, nsess, *nsteps), true)
+		}
+		// (4) random sequences of the profile `cross`
+		rc := NewRng(*seed ^ 0xc03c705).Fork()
+		for k := 0; k < *ncross; k++ {
+			echo := "drop"
+			if k%4 == 3 {
+				echo = "flush"
+			}
+			nsess := rc.Range(2, 3)
+			rr := rc.Fork()
+			res.Stats["cross.echo-"+echo]++
+			res.Stats[fmt.Sprintf("cross.sessions-%d", nsess)]++
+			handle(fmt.Sprintf("cross-%d", k), echo, "", c03RunSequenceP(echo, "cross", nil, rr, nsess, *nsteps), true)
 		}
 	}
 	res.DistinctNontrivial = nontrivial
